@@ -171,10 +171,30 @@ def cli_family(pid, tier, chk):
             ranked = sorted(plans, key=score, reverse=True)
             top = [p for p in ranked if score(p) >= 4]
             chk.rng.shuffle(top)
-            rest = [p for p in plans if p not in top[:130]]
-            plans = top[:130] + rest[:130]
+            # strata that must not depend on luck: the same pattern given twice, the same file with two lookups, -m and -l mixed
+            def stratum(pred, k):
+                pool = [p for p in plans if pred(p)]
+                chk.rng.shuffle(pool)
+                return pool[:k]
+            must = stratum(lambda p: any(x.get("alias") and x["kind"] == "glob" for x in p["args"]), 25) \
+                + stratum(lambda p: any(x.get("share") for x in p["args"]), 25) \
+                + stratum(lambda p: len({x["flag"] for x in p["args"]}) == 2 and len({x["model"] for x in p["args"]}) == 1, 25)
+            rest = [p for p in plans if p not in top[:110] and p not in must]
+            plans = must + top[:110] + rest[:110]
         else:
-            plans = plans[:260]
+            # C17: every faulty kind / fault x position of the faulty argument x existing output at least twice, then a random rest
+            def key(p):
+                bad = [i for i, x in enumerate(p["args"]) if x["kind"] not in ("list", "object", "lookup", "glob")]
+                return (p["fault"], p["args"][bad[0]]["kind"] if bad else "", (bad[0], len(p["args"])) if bad else (), p["out"])
+            seen, must, rest = {}, [], []
+            for p in plans:
+                k = key(p)
+                if seen.get(k, 0) < 2:
+                    seen[k] = seen.get(k, 0) + 1
+                    must.append(p)
+                else:
+                    rest.append(p)
+            plans = must + rest[: max(0, 420 - len(must))]
     traces, inputs = DC.cli_traces(chk, plans, fmts=("json", "json", "yaml", "ini"), sub_every=8 if quick else 3)
     chk.rules.append("%d TLC-enumerated CLI plans materialised as real files + argv and run through json_to_models.cli.main() with "
                      "recording wrappers (file loaders, validate, set_args, generate, generate_code, open, write, print)" % len(plans))
